@@ -1,0 +1,30 @@
+// SPDX-FileCopyrightText: 2020 Alvar Penning
+//
+// SPDX-License-Identifier: GPL-3.0-or-later
+
+//go:build verif
+// +build verif
+
+package storage
+
+// VerifCrash is the panic value raised at an armed crash point (verification builds only).
+type VerifCrash struct{ Label string }
+
+// VerifCrashAt arms the crash point with this label; VerifCrashSkip lets that many visits pass first.
+var (
+	VerifCrashAt   string
+	VerifCrashSkip int
+)
+
+// verifCrashPoint aborts the running store operation at an armed crash point.
+func verifCrashPoint(label string) {
+	if label != VerifCrashAt {
+		return
+	}
+	if VerifCrashSkip > 0 {
+		VerifCrashSkip--
+		return
+	}
+	VerifCrashAt = ""
+	panic(VerifCrash{label})
+}
